@@ -28,6 +28,7 @@ func init() {
 
 // or4Reviewed: descents that cannot happen for a reason outside the function (one line each).
 var or4Reviewed = map[string]string{
+	"notations/jschema.(*exampleBuilder).buildObjectKey|Build":                         "the type behind a key shortcut resolves to a string or Check — which Example runs first — fails with code 1304 (checked on {@k: 1} with @k an object, an array and an alias cycle); a string type's root is a literal or a chain of aliases, and aliases descend through buildExampleForMixedValueNode, which counts",
 	"notations/jschema/internal/checker.(checkSchema).checkArrayItems|checkArrayItems": "an array node cannot carry a types list: the rule loader rejects type / or rules on a node written as an array or object literal (codes 1107, 1108), and type shortcuts make mixed-value nodes, not array nodes — the loop body is dead",
 }
 
@@ -87,13 +88,26 @@ func runOR4(c *load.Ctx, r *report.RuleResult) {
 		}
 		return m
 	}
+	// only code the public API can reach: an unguarded descent in a function nothing calls cannot
+	// overflow anybody's stack
+	var roots []*ssa.Function
+	for _, fn := range c.ModuleFunctions() {
+		if fn.Parent() != nil || strings.Contains(load.FuncPkgRel(fn), "internal") {
+			continue
+		}
+		if obj := fn.Object(); obj != nil && obj.Exported() {
+			roots = append(roots, fn)
+		}
+	}
+	live := reachableFrom(c, roots...)
 	var fns []*ssa.Function
 	for _, fn := range c.ModuleFunctions() {
-		if !load.IsAux(load.FuncPkgRel(fn)) {
+		if _, ok := live[fn]; ok && !load.IsAux(load.FuncPkgRel(fn)) {
 			fns = append(fns, fn)
 		}
 	}
 	sort.Slice(fns, func(i, j int) bool { return load.FuncKey(fns[i]) < load.FuncKey(fns[j]) })
+	r.Stat("live_functions", len(fns))
 	for _, fn := range fns {
 		// values derived from a resolved type
 		derived := map[ssa.Value]bool{}
@@ -118,6 +132,14 @@ func runOR4(c *load.Ctx, r *report.RuleResult) {
 			changed = false
 			for _, b := range fn.Blocks {
 				for _, ins := range b.Instrs {
+					if st, isStore := ins.(*ssa.Store); isStore {
+						// a resolved type kept in a local cell (pointer-receiver getters need its address)
+						if a, isAlloc := st.Addr.(*ssa.Alloc); isAlloc && derived[st.Val] && !derived[a] {
+							derived[a] = true
+							changed = true
+						}
+						continue
+					}
 					v, ok := ins.(ssa.Value)
 					if !ok || derived[v] {
 						continue
@@ -213,6 +235,37 @@ func runOR4(c *load.Ctx, r *report.RuleResult) {
 						}
 						if dominatesInstr(lk, call) {
 							guarded = describeValue(lk.X)
+						}
+					}
+				}
+				if guarded == "" {
+					// the test may sit in a helper (visit(name) / seen(name)): a call of a module
+					// function that makes such a lookup, whose result is branched on, dominating the descent
+					for _, b2 := range fn.Blocks {
+						for _, ins2 := range b2.Instrs {
+							hc, ok := ins2.(*ssa.Call)
+							if !ok || hc == call || !dominatesInstr(hc, call) {
+								continue
+							}
+							g := hc.Call.StaticCallee()
+							if g == nil || !load.FuncInModule(g) || g.Blocks == nil || !branchedOn(hc) {
+								continue
+							}
+							for _, gb := range g.Blocks {
+								for _, gi := range gb.Instrs {
+									lk, ok := gi.(*ssa.Lookup)
+									if !ok || isTypeMapLookup(lk) {
+										continue
+									}
+									mt, ok := lk.X.Type().Underlying().(*types.Map)
+									if !ok {
+										continue
+									}
+									if bt, ok := mt.Key().Underlying().(*types.Basic); ok && bt.Info()&types.IsString != 0 {
+										guarded = describeValue(lk.X) + " (inside " + g.Name() + ")"
+									}
+								}
+							}
 						}
 					}
 				}
@@ -448,4 +501,27 @@ func runOR7(c *load.Ctx, r *report.RuleResult) {
 	if n == 0 {
 		r.Unk("anchor|checker type-table descents", "", "no checker function looks a type up in a parameter table and descends with a table")
 	}
+}
+
+// branchedOn: the call's (boolean) result, possibly negated, decides an If.
+func branchedOn(call *ssa.Call) bool {
+	refs := call.Referrers()
+	if refs == nil {
+		return false
+	}
+	for _, ref := range *refs {
+		switch x := ref.(type) {
+		case *ssa.If:
+			return true
+		case *ssa.UnOp:
+			if rr := x.Referrers(); rr != nil {
+				for _, r2 := range *rr {
+					if _, ok := r2.(*ssa.If); ok {
+						return true
+					}
+				}
+			}
+		}
+	}
+	return false
 }
